@@ -35,6 +35,15 @@ if __name__ == "__main__":
     E["C02-live-row-repeated-setter"] = ("C02", [RLE([{"cells": [{"v": 1}]}, {"cells": [{"v": 2}]}]), {"op": "live_row_rep", "y": 0, "k": 2, "obs": FULL}], "violation")
     E["C02-live-cell-repeated-setter"] = ("C02", [RLE([{"cells": [{"v": 1}, {"v": 2}]}]), {"op": "live_cell_rep", "c": {"x": 0, "y": 0}, "k": 2, "obs": FULL}], "violation")
     E["fixed-C07-extend_rows-no-columns"] = ("C07", [{"op": "init", "family": "empty", "attached": False}, {"op": "extend_rows", "rows": [{"cells": []}], "obs": FULL}], "pass")
+    E["C08-traverse-live-rows"] = ("C08", [RLE([{"cells": [{"v": 1}]}, {"cells": [{"v": 2}]}]), {"op": "probe", "getter": "traverse", "mut": "set_value", "which": 0, "v": "m1", "k": None}], "violation")
+    E["fixed-C08-traverse_columns-range-repeat"] = ("C08", [{"op": "init", "family": "prefilled", "attached": False, "w": 3, "h": 1}, {"op": "probe", "getter": "traverse_columns", "start": 2, "end": 4, "mut": "style", "which": 0, "v": "m1", "k": None}], "pass")
+    LAW = lambda law, **kw: dict({"op": "law", "law": law, "obs": {"level": "none"}}, **kw)
+    E["C17-row-group-mutation"] = ("C17", [RLE([{"cells": [{"v": 1}]}, {"cells": [{"v": 2}]}], header_rows=1), LAW("span", area={"a": [0, 0, 0, 1]}, merge=False)], "violation")
+    E["C17-csv-empty-content-sniffer"] = ("C17", [RLE([{"cells": [{"v": None}]}]), {"op": "delete_column", "x": 0, "obs": {"level": "none"}}, LAW("csv", target="none", dialect="unix")], "violation")
+    E["fixed-C17-transpose-ragged"] = ("C17", [RLE([{"cells": [{"v": 1}, {"v": 2}]}, {"cells": [{"v": 3}]}]), LAW("transpose2")], "pass")
+    E["fixed-C17-optimize_width-repeated-last-row"] = ("C17", [RLE([{"cells": [{"v": 1}]}, {"cells": [{"v": 2}], "r": 3}]), LAW("optimize_width")], "pass")
+    E["fixed-C17-optimize_width-no-rows"] = ("C17", [{"op": "init", "family": "empty", "attached": False}, LAW("optimize_width")], "pass")
+    E["fixed-C17-transpose-area-short-rows"] = ("C17", [RLE([{"cells": [{"v": 1}]}, {"cells": [{"v": 2}, {"v": 3}]}, {"cells": [{"v": 7}, {"v": 8}, {"v": 9}]}], cols=[{"r": 3}]), LAW("transpose2_area", area={"a": [1, 0, 2, 1]})], "pass")
     for fid, (prop, ops, expect) in E.items():
         if which and fid not in which:
             continue
